@@ -1,5 +1,6 @@
-(* C05 liveness half for Buffer with maxsize >= 3: no reachable state is a deadlock when the source raises only
-   ordinary exceptions. *)
+(* C05 liveness half for Buffer: no reachable state is a deadlock when the source raises only ordinary exceptions - for every
+   maxsize >= 1 with the finalizer that keeps draining while it waits for the worker (repair C), and for maxsize >= 3 with the
+   finalizer before the repair. *)
 From MpV Require Import Lib.Tac Lib.Conc Model.Buffer.
 Import ListNotations.
 
@@ -138,7 +139,7 @@ Lemma c_blocked_of g s : step_c g s = None ->
   | CGet => q s = [] \/ exists e l, q s = Exc e :: l
   | CGetExc => q s = [] \/ exists i l, q s = i :: l /\ forall e, i <> Exc e
   | CDrainGet _ => q s = []
-  | CJoin _ => w_finished s = false
+  | CJoin _ => w_finished s = false /\ drain_join g = false
   | CDone _ => True
   | _ => False
   end.
@@ -168,9 +169,10 @@ Proof.
 Qed.
 
 (* a state in which neither thread can move is final *)
-Lemma L_no_deadlock g s : (3 <= maxsize g)%nat -> L s -> deadlocked g s = false.
+Lemma L_no_deadlock g s :
+  (1 <= maxsize g)%nat -> (drain_join g = true \/ 3 <= maxsize g)%nat -> L s -> deadlocked g s = false.
 Proof.
-  intros Hm [Hb H]. unfold deadlocked.
+  intros Hm1 Hm [Hb H]. unfold deadlocked.
   destruct (step g s W) as [[sw ew]|] eqn:Ew; [apply andb_false_r|].
   destruct (step g s C) as [[sc ec]|] eqn:Ec; [apply andb_false_r|].
   rewrite andb_true_r. apply negb_false_iff.
@@ -193,7 +195,8 @@ Proof.
   - (* CDrainGet *)
     destruct H as (_ & _ & H). contradiction.
   - (* CJoin *)
-    destruct H as (Hl & Hst & Hn).
+    destruct H as (Hl & Hst & Hn). destruct Ec as [Ec Edj].
+    destruct Hm as [Hm|Hm]; [congruence|].
     destruct Ew as [Hf|[Hi|[Hp Hlen]]].
     + congruence.
     + rewrite Hi in Hl; exact Hl.
@@ -201,12 +204,44 @@ Proof.
 Qed.
 
 Theorem buffer_no_deadlock g sched :
+  no_base (src g) -> (1 <= maxsize g)%nat -> drain_join g = true -> deadlocked g (run step g (init g) sched) = false.
+Proof. intros Hs Hm Hd. apply L_no_deadlock; [exact Hm|left; exact Hd|apply L_run; exact Hs]. Qed.
+
+(* the finalizer before the repair needed three slots *)
+Theorem buffer3_no_deadlock_before_repair g sched :
   no_base (src g) -> (3 <= maxsize g)%nat -> deadlocked g (run step g (init g) sched) = false.
-Proof. intros Hs Hm. apply L_no_deadlock; [exact Hm|apply L_run; exact Hs]. Qed.
+Proof. intros Hs Hm. apply L_no_deadlock; [lia|right; exact Hm|apply L_run; exact Hs]. Qed.
 
 (* the premises are satisfiable and the conclusion is not trivially about the initial state *)
 Example buffer_no_deadlock_nonvacuous :
-  let g := {| maxsize := 3%nat; src := [SData 0; SData 1; SRaise 7; SData 2]; stop_after := Some 1%nat |} in
-  no_base (src g) /\ (3 <= maxsize g)%nat /\
+  let g := {| maxsize := 1%nat; src := [SData 0; SData 1; SRaise 7; SData 2]; stop_after := Some 1%nat; drain_join := true |} in
+  no_base (src g) /\ (1 <= maxsize g)%nat /\
   cp (run step g (init g) [C; W; W; W; C; C; W; W; C; C; W; W; W; C; W; C]) <> CStart.
 Proof. cbn. repeat split; try lia. vm_compute. discriminate. Qed.
+
+(* Once the stop flag is set the worker has at most four steps left, and each of its steps uses one up: the finalizer's loop
+   (drain, wait 10 ms for the worker, drain again) therefore ends as soon as the worker has been scheduled four more times -
+   and the worker can always be scheduled when the queue has room, which the drain provides. *)
+Definition steps_left (w : wpc) : nat :=
+  match w with WPut _ => 4 | WNext => 3 | WChk _ | WStp _ => 2 | WFin | WExc _ => 1 | WIdle | WDone | WDead _ => 0 end.
+
+Lemma worker_step_after_stop_uses_one_up g s s' e :
+  stopped s = true -> step_w g s = Some (s', e) -> stopped s' = true /\ (steps_left (wp s') < steps_left (wp s))%nat.
+Proof.
+  destruct s as [w c qq st rs pu re dr]. cbn. intros -> Hs.
+  unfold step_w, w_put, full, upd_w in Hs; cbn in Hs.
+  break_match_hyp Hs; inv Hs; cbn; split; try reflexivity; lia.
+Qed.
+
+Lemma worker_can_move_when_room g s :
+  (length (q s) < maxsize g)%nat -> w_finished s = false -> wp s <> WIdle -> step_w g s <> None.
+Proof.
+  destruct s as [w c qq st rs pu re dr]. unfold step_w, w_put, full, upd_w, w_finished. cbn. intros Hl Hf Hi.
+  destruct w; try discriminate; try congruence.
+  - destruct rs as [|[x|x|x] rs]; discriminate.
+  - destruct st; discriminate.
+  - destruct (Nat.leb_spec (maxsize g) (length qq)); [lia|discriminate].
+  - destruct (Nat.leb_spec (maxsize g) (length qq)); [lia|discriminate].
+  - destruct (Nat.leb_spec (maxsize g) (length qq)); [lia|discriminate].
+  - destruct (Nat.leb_spec (maxsize g) (length qq)); [lia|discriminate].
+Qed.
